@@ -27,6 +27,7 @@ HARNESSES = {
     'kdfs': 'bounded.kdfs',                   # area 4: KDFs
     'bigint': 'bounded.bigint',               # area 5: three Integer back ends vs int and vs each other; monty_pow/monty_multiply
     'accel': 'bounded.accel',                 # area 6: AES-NI vs portable, CLMUL vs portable
+    'memsafe': 'bounded.memsafe',             # area 8: every extension module rebuilt with AddressSanitizer, driven through the Python API (C17)
     'ec': 'bounded.ec',                       # area 7: EC scalar multiplication / group law / X25519 / X448 / ECDH
 }
 
@@ -36,12 +37,18 @@ SUGGESTED = {
     'C02': [('primitives', 'blockciphers', None, None), ('modes', 'modes', ['basic.', 'aead.', 'kw'], None)],
     'C03': [('hashes', 'hashes', None, ['digest_eq_spec', 'output_lengths', 'customisation', 'domain', 'lengths', 'keys_and', 'TupleHash'])],
     'C06': [('ec', 'ec', None, None)],
+    # key equality rests on the native point comparison (ec_ws_cmp / ed*_cmp: assumed by the proved EccKey.__eq__ / EccPoint.__eq__ contracts);
+    # seeded change C08-ec-ws-cmp-ignores-y
+    'C08': [('ec_point_eq', 'ec', None, ['add_double_neg_eq_group_law'])],
     'C09': [('modes_segmentation_buffers', 'modes', ['seg.', 'buf'], None), ('hash_segmentation', 'hashes', None, ['segmentation', 'copy', 'output_lengths'])],
     'C12': [('kdfs', 'kdfs', None, None)],
     'C14': [('bigint', 'bigint', None, ['.exact', 'raw.'])],
     'C16': [('accel', 'accel', None, None), ('bigint_agree', 'bigint', ['ops.'], ['agree.'])],
     # copy() independence of the native states behind hashes / XOFs / MACs, incl. a copy taken while squeezing (the C copy functions are
     # assumed by the Python copy() contracts; seeded change C19-keccak-copy-valid-bytes-only)
+    # memory safety of ALL native code through the Python API under AddressSanitizer (most C files are under no CVC contract; seeded change
+    # C17-ctr-word-xor-head-unclamped restructures CTR_encrypt so that its loop contracts no longer apply: exit 2 without this harness)
+    'C17': [('memsafe', 'memsafe', None, None)],
     'C19': [('hash_copy', 'hashes', None, ['.copy'])],
 }
 
@@ -96,4 +103,10 @@ def units_for(prop, tiers=('quick', 'thorough')):
 def replay_case(replay, src_dir=None):
     """re-run the stored case of a bounded_fail on the current tree; returns (held, expected, got)"""
     from bounded import _common
+    if replay.get('harness') == 'bounded.memsafe':
+        from bounded import memsafe
+        c = replay['case']
+        r = memsafe.run(c.get('tier', 'quick'), c.get('seed', 0), src_dir=src_dir, only=[c['group']])
+        bad = [x for x in r['results'] if x['status'] == 'bounded_fail']
+        return (not bad), 'no report', (bad[0]['witness']['got'] if bad else 'no report')
     return _common.replay(replay['harness'], replay['case'], src_dir)
